@@ -72,6 +72,9 @@ def find(n, pred):
         st.extend(x.args)
     return None
 
+class _Reported(Exception):
+    pass
+
 def main_idx(rep, ws):
     where = 'src/python/PyImath/PyImathFixedArray.h'
     repo = build.REPO
@@ -201,7 +204,10 @@ def main_idx(rep, ws):
                 if x.op == 'icmp' and find(x, lambda y: y is v) is not None: out_ += [z for z in ins if find(x, lambda y: y is z) is not None]
             return sorted(set(out_), key=lambda z: z.id)
         Lx, Ly = compared_with(iv), compared_with(jv)
-        if len(Lx) != 1 or len(Ly) != 1 or Lx[0] is Ly[0]: raise vg.Unsupported('the two lengths were not identified')
+        if len(Lx) == 1 and len(Ly) == 1 and Lx[0] is Ly[0]:
+            rep.ob('FixedArray2D::getitem', 'R19.idx', VIOLATED, 'both indices of item(i, j) are range-checked and wrapped against the same extent (%s): on a non-square array a valid column raises, a negative one wraps to the wrong column, or an invalid one is read past the end' % T.show(Lx[0], 2), where)
+            raise _Reported()
+        if len(Lx) != 1 or len(Ly) != 1: raise vg.Unsupported('the two lengths were not identified')
         Lx, Ly = Lx[0], Ly[0]
         bad = None
         if Lx.attr[0] == Ly.attr[0] and Lx.attr[1] > Ly.attr[1]:
@@ -226,6 +232,8 @@ def main_idx(rep, ws):
                 if bad: break
             if bad: break
         rep.ob('FixedArray2D::getitem', 'R19.idx', VIOLATED if bad else HOLDS, bad or 'reads element stride.x * (cj * stride.y + ci) for the canonical indices (ci, cj), raises otherwise', 'src/python/PyImath/PyImathFixedArray2D.h')
+    except _Reported:
+        pass
     except (vg.Unsupported, P.NotPoly, IndexError) as e:
         rep.ob('FixedArray2D::getitem', 'R19.idx', UNDECIDED, repr(e)[:300], 'src/python/PyImath/PyImathFixedArray2D.h')
     n += 1
